@@ -67,7 +67,10 @@ Record nstate := mkNS {
   ns_exists : bool;            (* created with Server.Of *)
   ns_socks : list ssock;       (* nsp.sockets + the namespace's adapter (rooms per socket) *)
   ns_ack : N;                  (* Namespace.ackID *)
-  ns_held : list N             (* connections whose CONNECT is inside nsp.add (middlewares running) *)
+  ns_held : list N;            (* connections whose CONNECT is inside nsp.add (middlewares running) *)
+  ns_pre : list (N * N)        (* (conn, room): rooms a middleware joined the not-yet-accepted socket to.
+                                  They live in the namespace's adapter, but the adapter delivers only to
+                                  sockets that nsp.sockets knows (adapterSocketStore.Get), i.e. [ns_socks] *)
 }.
 
 Record sconn := mkSC { sc_closed : bool; sc_table : list (nsname * N) (* serverConn.sockets byNsp *) }.
@@ -77,11 +80,13 @@ Record server := mkSrv { sv_nsp : nsname -> nstate; sv_conn : N -> sconn }.
 Definition find_sock (sid : N) (ns : nstate) : option ssock :=
   find (fun k => ss_sid k =? sid) (ns_socks ns).
 Definition set_socks (ns : nstate) (l : list ssock) : nstate :=
-  mkNS (ns_exists ns) l (ns_ack ns) (ns_held ns).
+  mkNS (ns_exists ns) l (ns_ack ns) (ns_held ns) (ns_pre ns).
 Definition ns_remove (sid : N) (ns : nstate) : nstate :=
   set_socks ns (filter (fun k => negb (ss_sid k =? sid)) (ns_socks ns)).
 Definition ns_update (k : ssock) (ns : nstate) : nstate :=
-  set_socks ns (map (fun k' => if ss_sid k' =? ss_sid k then k else k') (ns_socks ns)).
+  (* the socket with k's id takes k's ack table and rooms (ids are unique; id and connection stay) *)
+  set_socks ns (map (fun k' => if ss_sid k' =? ss_sid k then mkSS (ss_sid k') (ss_conn k') (ss_acks k) (ss_rooms k) else k')
+                    (ns_socks ns)).
 
 Definition set_nsp (s : server) (n : nsname) (ns : nstate) : server :=
   mkSrv (upd (sv_nsp s) n ns) (sv_conn s).
@@ -116,7 +121,7 @@ Definition remove_one (c : N) (l : list N) : list N :=
 Definition s_connect (c : N) (n : nsname) (s : server) : server * list out :=
   let ns := sv_nsp s n in
   if ns_exists ns
-  then (set_nsp s n (mkNS true (ns_socks ns) (ns_ack ns) (c :: ns_held ns)), [])
+  then (set_nsp s n (mkNS true (ns_socks ns) (ns_ack ns) (c :: ns_held ns) (ns_pre ns)), [])
   else (s, [OSend c (mkP PConnectError n None 0)]).
 
 Definition s_event (c : N) (n : nsname) (sid : N) (p : packet) (s : server) : server * list out :=
@@ -158,6 +163,18 @@ Definition s_recv (c : N) (p : packet) (s : server) : server * list out :=
   | _, _ => close_conn c s
   end.
 
+Definition pre_rooms (c : N) (l : list (N * N)) : list N :=
+  map snd (filter (fun x => fst x =? c) l).
+Definition pre_drop (c : N) (l : list (N * N)) : list (N * N) :=
+  filter (fun x => negb (fst x =? c)) l.
+
+(** a namespace middleware calls socket.Join(room) on the socket whose CONNECT it is examining *)
+Definition s_mwjoin (c : N) (n : nsname) (room : N) (s : server) : server * list out :=
+  let ns := sv_nsp s n in
+  if existsb (N.eqb c) (ns_held ns)
+  then (set_nsp s n (mkNS (ns_exists ns) (ns_socks ns) (ns_ack ns) (ns_held ns) ((c, room) :: ns_pre ns)), [])
+  else (s, []).
+
 (** nsp.add returns: middleware verdict; on success doConnect: nsp.sockets.set, the connection's
     table gets the socket (repaired code: before the CONNECT reply is written), own room, CONNECT
     reply, connection handlers.  [sid] is the id the new socket drew (random in the code, so it
@@ -166,8 +183,8 @@ Definition s_verdict (c : N) (n : nsname) (ok : bool) (sid : N) (s : server) : s
   let ns := sv_nsp s n in
   if existsb (N.eqb c) (ns_held ns) then
     if ok then
-      let s1 := set_table (set_nsp s n (mkNS (ns_exists ns) (ns_socks ns ++ [mkSS sid c [] []]) (ns_ack ns)
-                                             (remove_one c (ns_held ns))))
+      let s1 := set_table (set_nsp s n (mkNS (ns_exists ns) (ns_socks ns ++ [mkSS sid c [] (pre_rooms c (ns_pre ns))])
+                                             (ns_ack ns) (remove_one c (ns_held ns)) (pre_drop c (ns_pre ns))))
                           c (aset n sid (table s c)) in
       let o1 := [OSend c (mkP PConnect n None 0); OLife true c n 0] in
       (* serverConn.connect re-checks after the admission: a socket admitted while or after its
@@ -176,7 +193,8 @@ Definition s_verdict (c : N) (n : nsname) (ok : bool) (sid : N) (s : server) : s
       then (fst (sock_close c n sid s1), o1 ++ snd (sock_close c n sid s1))
       else (s1, o1)
     else
-      (set_nsp s n (mkNS (ns_exists ns) (ns_socks ns) (ns_ack ns) (remove_one c (ns_held ns))),
+      (* refused: the rooms a middleware joined the socket to are left (serverSocket.cleanup) *)
+      (set_nsp s n (mkNS (ns_exists ns) (ns_socks ns) (ns_ack ns) (remove_one c (ns_held ns)) (pre_drop c (ns_pre ns))),
        [OSend c (mkP PConnectError n None 0)])
   else (s, []).
 
@@ -188,7 +206,7 @@ Definition s_emit (c : N) (n : nsname) (tag : N) (ack : bool) (s : server) : ser
       if ack then
         let id := ns_ack ns in
         let ns1 := ns_update (mkSS (ss_sid k) (ss_conn k) ((id, tag) :: ss_acks k) (ss_rooms k)) ns in
-        (set_nsp s n (mkNS (ns_exists ns1) (ns_socks ns1) (id + 1) (ns_held ns1)),
+        (set_nsp s n (mkNS (ns_exists ns1) (ns_socks ns1) (id + 1) (ns_held ns1) (ns_pre ns1)),
          [OSend c (mkP PEvent n (Some id) tag)])
       else (s, [OSend c (mkP PEvent n None tag)])
   | None => (s, [])
@@ -222,6 +240,7 @@ Definition s_disc (c : N) (n : nsname) (s : server) : server * list out :=
 Inductive sop :=
 | SRecv (c : N) (p : packet)
 | SVerdict (c : N) (n : nsname) (ok : bool) (sid : N)
+| SMwJoin (c : N) (n : nsname) (room : N)
 | SEmit (c : N) (n : nsname) (tag : N) (ack : bool)
 | SBcast (n : nsname) (room ex : option N) (tag : N)
 | SJoin (c : N) (n : nsname) (room : N)
@@ -232,6 +251,7 @@ Definition sstep (o : sop) (s : server) : server * list out :=
   match o with
   | SRecv c p => s_recv c p s
   | SVerdict c n ok sid => s_verdict c n ok sid s
+  | SMwJoin c n room => s_mwjoin c n room s
   | SEmit c n tag ack => s_emit c n tag ack s
   | SBcast n room ex tag => s_bcast n room ex tag s
   | SJoin c n room => s_join c n room s
@@ -239,7 +259,7 @@ Definition sstep (o : sop) (s : server) : server * list out :=
   | SConnClose c => close_conn c s
   end.
 
-Definition ns0 (ex : bool) : nstate := mkNS ex [] 0 [].
+Definition ns0 (ex : bool) : nstate := mkNS ex [] 0 [] [].
 Definition server0 (names : list nsname) : server :=
   mkSrv (fun n => ns0 (existsb (nseqb n) names)) (fun _ => mkSC false []).
 
@@ -447,8 +467,10 @@ Definition deliver (y : sys) (m : msg) : sys * list msg * list obs :=
       let n := norm_hdr (p_nsp p) in
       let auto := match p_type p, alookup n (table (y_srv y) c) with
                   | PConnect, None =>
-                      if ns_exists (sv_nsp (y_srv y) n) && negb (y_gated y n)
-                      then [SVerdict c n true (y_next y)] else []
+                      if ns_exists (sv_nsp (y_srv y) n) then
+                        if y_gated y n then [SMwJoin c n 1]   (* the rig's gate joins room r1, then blocks *)
+                        else [SVerdict c n true (y_next y)]
+                      else []
                   | _, _ => []
                   end in
       let '(y', ms, ob) := srv_steps (bump y 1) (SRecv c p :: auto) in (mark_rawclosed y' ob, ms, ob)
